@@ -121,7 +121,7 @@ theorem Inv_schedOther {s : PState} (h : Inv s) : Inv { s with lastKillFalse := 
 
 theorem Inv_schedStart {s : PState} (h : Inv s) (i : Nat) (c : Uuid) (w : Worker)
     (h1 : s.phase = .scheduling) (h2 : s.lastKillFalse = some c) (h3 : s.wk i = some w)
-    (h4 : w.state = .idle) (h5 : w.idleB = .run) (h6 : s.out i = none) :
+    (h4 : w.state = .idle) (h5 : w.idleB = .run) :
     Inv { s with wk := upd s.wk i (some (w.accept c)), out := upd s.out i (some (c, false)),
                  lastKillFalse := none } := by
   have a1 := Worker.accept_starting w c
@@ -147,14 +147,21 @@ theorem Inv_startExec {s : PState} (h : Inv s) (i : Nat) (c : Uuid) (b : Bool)
     inv_auto
 
 theorem Inv_startDone {s : PState} (h : Inv s) (i : Nat) (c : Uuid) (w : Worker)
-    (h1 : s.out i = some (c, true)) (h2 : s.wk i = some w) (h3 : w.state ≠ .idle) :
+    (h1 : s.out i = some (c, true)) (h2 : s.wk i = some w) :
     Inv { s with wk := upd s.wk i (some (w.startDone c (s.clock + 1))), out := upd s.out i none,
                  clock := s.clock + 1 } := by
-  have a1 := Worker.startDone_starting w c
-  have a2 := Worker.startDone_running w c
-  have a3 := Worker.startDone_state w c (s.clock + 1)
-  have a4 := Worker.startDone_updated w c (s.clock + 1)
-  inv_auto
+  by_cases hc : c ∈ w.starting
+  · have a1 := fun v => Worker.startDone_starting w c v (s.clock + 1)
+    have a2 := fun v => Worker.startDone_running w c v (s.clock + 1)
+    have a3 := Worker.startDone_state w c (s.clock + 1)
+    have a4 : (w.startDone c (s.clock + 1)).updated = s.clock + 1 := by
+      rw [Worker.startDone_updated]; simp [hc]
+    have hni : w.state ≠ .idle := fun hi => by
+      have := (h.idleEmpty i w h2 hi).2; rw [this] at hc; cases hc
+    generalize (w.startDone c (s.clock + 1)) = r at a1 a2 a3 a4
+    inv_auto
+  · rw [Worker.startDone_of_not_mem _ hc]
+    inv_auto
 
 theorem Inv_killed {s : PState} (h : Inv s) (i : Nat) (c : Uuid) (w : Worker)
     (h1 : s.wk i = some w) (h2 : c ∉ s.procs i) :
